@@ -126,11 +126,136 @@ func TestC02(t *testing.T) {
 			}
 		}
 	})
+	c02R1(r)
+	c02Generated(r)
+}
+
+// c02R1 replays the descriptor sets shipped in the repository (protoc output
+// with --include_imports): every file of a set whose source is in the corpus
+// is compiled and compared with the file in the set.
+func c02R1(r *vlib.Run) {
+	sets, src, err := gen.LoadR1()
+	if err != nil {
+		r.Inconclusive("R1: " + err.Error())
+		return
+	}
+	for si, set := range sets {
+		if !r.Mine(si) {
+			continue
+		}
+		// sources are rooted at internal/testdata; the options/ directory carries an override of
+		// descriptor.proto and is its own root (DESIGN.md Appendix A gotchas).
+		root := ""
+		if strings.HasPrefix(set.Name, "options/") {
+			root = "options/"
+		}
+		srcs := map[string]string{}
+		for k, v := range src {
+			if root != "" {
+				if strings.HasPrefix(k, root) {
+					srcs[strings.TrimPrefix(k, root)] = v
+				}
+			} else if !strings.HasPrefix(k, "options/") {
+				srcs[k] = v
+			}
+		}
+		reg, refused := gen.BuildFilesLenient(set.Files)
+		types := gen.TypesOf(reg)
+		for _, want := range set.Files {
+			id := "r1/" + set.Name + "/" + want.GetName()
+			if _, ok := srcs[want.GetName()]; !ok || !r.Want(id) {
+				continue
+			}
+			if _, bad := refused[want.GetName()]; bad {
+				r.Class("r1-skipped:go-runtime-refuses-protoc-descriptor")
+				continue
+			}
+			out := gen.Compile(srcs, []string{want.GetName()}, gen.Opts{})
+			key := id
+			if len(want.MessageType)+len(want.EnumType) == 0 {
+				key = ""
+			}
+			r.Eval(key)
+			if !out.OK() {
+				r.Violation("c02.rejects-protoc-accepted", "R1: "+classifyErr(out.ErrSummary()), id, map[string]any{"set": set.Name, "file": want.GetName(), "errors": out.ErrSummary()})
+				continue
+			}
+			fd := gen.Protos(out.Files)[want.GetName()]
+			d, err := compareWithProtoc(fd, want, types, false)
+			if err != nil {
+				r.Inconclusive("compare " + id + ": " + err.Error())
+			} else if d != "" {
+				r.Violation("c02.descriptor-differs", "R1 source replay: "+gen.DiffClass(d), id, map[string]any{"set": set.Name, "file": want.GetName(), "diff compiled!=protoc": d})
+			}
+			r.Class("r1:compared")
+		}
+	}
 }
 
 // renderedDeps returns sources for the transitive dependencies of name:
 // original sources where present, canonical renderings of protoc's
 // descriptors otherwise.
+// c02Generated compiles generated models in several renderings and compares
+// every produced file with the model it was rendered from.
+func c02Generated(r *vlib.Run) {
+	n := r.N(300, 5000)
+	R := r.N(3, 8)
+	r.Par(n, func(i int) {
+		id := fmt.Sprintf("g/%d", i)
+		if !r.Want(id) {
+			return
+		}
+		rng := r.Rng(id)
+		m, err := gen.GenModel(rng, modelConfig(rng, i))
+		if err != nil {
+			r.Class("g:model-not-decided (refused by protodesc)")
+			return
+		}
+		for v := 0; v < R; v++ {
+			vid := fmt.Sprintf("%s/r%d", id, v)
+			if !r.Want(vid) {
+				continue
+			}
+			var stf func(int) *gen.Style
+			if v > 0 {
+				srng := r.Rng(vid)
+				stf = func(k int) *gen.Style { return &gen.Style{Rng: srng.Fork(fmt.Sprint(k))} }
+			}
+			src, err := m.Sources(stf)
+			if err != nil {
+				r.Inconclusive("render: " + err.Error())
+				continue
+			}
+			out := gen.Compile(src, m.Names(), gen.Opts{Par: 1 + (v%3)*3})
+			r.Eval(srcKey(src))
+			if !out.OK() {
+				r.Class("g:rejected (decided by C01)")
+				continue
+			}
+			res := gen.AllResults(out.Files)
+			for _, f := range m.Files {
+				cr := res[f.GetName()]
+				if cr == nil {
+					r.Violation("c02.file-missing", "G: requested file missing from the results", vid, map[string]any{"file": f.GetName()})
+					continue
+				}
+				d, err := compareWithProtoc(cr.FileDescriptorProto(), f, m.Types, false)
+				if err != nil {
+					r.Inconclusive("compare: " + err.Error())
+					continue
+				}
+				if d != "" {
+					r.Violation("c02.descriptor-differs", "generated model: "+gen.DiffClass(d), vid, map[string]any{"file": f.GetName(), "source": src[f.GetName()], "diff compiled!=model": d})
+				}
+				r.Class("g:file-compared")
+			}
+			if i == 2 && v == 1 {
+				r.Sample("generated-source", trunc(src[m.Names()[len(m.Names())-1]], 1500))
+			}
+		}
+	})
+}
+
 func (w *r2World) renderedDeps(name string) map[string]string {
 	out := map[string]string{}
 	var add func(n string)
